@@ -45,4 +45,16 @@ CONTROLS = [
          expect=r"generic_visit/never-replaces-a-literal"),
     dict(name="BENIGN: the literal exclusion is spelled with Constant only", benign=True,
          edits=[("cdd/shared/ast_utils.py", "            and not isinstance(node, (Constant, Str))\n", "            and not isinstance(node, Constant)\n")]),
+    dict(name="the replacement loop writes the first slot instead of the one it found",
+         edits=[("cdd/shared/ast_utils.py", "                        arg_l[idx] = emit_arg(self.replacement_node)\n", "                        arg_l[0] = emit_arg(self.replacement_node)\n")],
+         expect=r"only-the-selected-slot/(loop1.preserve|block.ensures)"),
+    dict(name="the replacement loop takes any parameter that carries a location (the test against the searched location is gone)",
+         edits=[("cdd/shared/ast_utils.py", "                    if (\n                        hasattr(arg_l[idx], \"_location\")\n                        and arg_l[idx]._location == self.search\n                    ):\n                        arg_l[idx] = emit_arg",
+                 "                    if hasattr(arg_l[idx], \"_location\"):\n                        arg_l[idx] = emit_arg")],
+         expect=r"only-the-selected-slot/(loop1.preserve|block.ensures)"),
+    dict(name="the replacement loop appends the new parameter instead of replacing the old one",
+         edits=[("cdd/shared/ast_utils.py", "                        arg_l[idx] = emit_arg(self.replacement_node)\n", "                        arg_l.append(emit_arg(self.replacement_node))\n")],
+         expect=r"only-the-selected-slot/"),
+    dict(name="BENIGN: the replacement node is built before the store", benign=True,
+         edits=[("cdd/shared/ast_utils.py", "                        arg_l[idx] = emit_arg(self.replacement_node)\n", "                        new_arg = emit_arg(self.replacement_node)\n                        arg_l[idx] = new_arg\n")]),
 ]
